@@ -60,6 +60,9 @@ def main():
                 ran.append("./check %s --tier quick (patch applied to /repo) -> exit %d" % (p, rcc))
         finally:
             sh("git -C /repo checkout -- .")
+            for p in [prop] + others:   # refresh evidence on the clean tree
+                rcc, outc = sh("./check %s --tier quick" % p, cwd=VERIF, timeout=3600)
+                results[p]["clean_tree_exit_after_revert"] = rcc
     meta = dict(property=prop, name=name, needs_to_manifest=needs, confirmed_breaks_property=confirmed,
                 commands_run=ran, check_results=results,
                 detected=bool(results.get(prop, {}).get("exit") == 1))
